@@ -85,6 +85,27 @@ DESC = {
     "C14_r5": ("process_test_loop: CAT_RETURN_STATE_OK folded into the HOLD_EXIT_OK case (calls hold_exit)", "an unsolicited TEST handler returning plain OK while a command is held: the hold ends although nobody asked"),
     "C19_r5": ("format_info_type: the <name:TYPE[access]> token built with one snprintf into char info[32], return value unchecked", "a variable name of >= 19 characters: token cut, fit check sees the shortened text"),
     "C20_r5": ("prepare_parse_command additionally clears cr_flag", "the line's only CR sits between 'A' and 'T': answer with bare LF newlines"),
+    "C03_r5": ("prepare_parse_command: memset length get_atcmd_buf_size() -> (commands_num >> 2) + 1", "command count a multiple of 4 with a working buffer of the minimal legal size (e.g. 24 commands, 6 bytes): one byte past the buffer / into the event half"),
+    "C04_r5": ("parse_int_decimal accumulates in uint64_t with an UINT64_MAX overflow check and applies the sign afterwards", "signed decimal texts of magnitude in [2^63, 2^64): reinterpreted as small int64 values and stored"),
+    "C05_r5": ("parse_buffer_hexadecimal: is_valid_hex_char() replaced by 'convert, reject if nibble > 15'", "the characters : ; < = > ? @ are accepted as hex digits"),
+    "C07_r5": ("parse_command_args: the '=?' detection moved to its own case '?' without the length == 0 guard", "a '?' anywhere in WRITE arguments (e.g. inside a string value printed by READ): the line is served as TEST"),
+    "C08_r5": ("format_buffer_string: 'does it fit' test on the stored text before the write-only substitution", "a tight command buffer and a long stored write-only string: READ answers ERROR or the empty string depending on the hidden length"),
+    "C12_r5": ("process_io_write: a refused write puts the command FSM back into FLUSH_IO_WRITE_WAIT", "an event queued while a command answer is being flushed and io->write refusing a byte: the event line is emitted inside / ahead of the answer"),
+    "C15_r5": ("the 'event FSM busy / queue not empty => BUSY' test moved from the end of cat_service into unsolicited_events_service (before the command FSM's step)", "an event triggered from inside io->read in a call whose read returns 'no byte': OK although an event is queued"),
+    "C16_r5": ("cat_hold_exit: lock failure test lock() != 0 became lock() > 0", "a mutex whose lock() reports failure with a negative code: the call proceeds without the lock and calls unlock()"),
+    "C17_r5": ("process_test_loop: HOLD_EXIT_OK calls the public (locking) cat_hold_exit() from inside cat_service's critical section", "a test handler / TEST event returning HOLD_EXIT_OK with a non-recursive mutex: self-deadlock"),
+    "C18_r5": ("is_hold: HOLD only while hold_state_flag is set and hold_exit_status == 0", "cat_is_hold between the application's cat_hold_exit() and the next cat_service(): not HOLD although the command is still suspended"),
+    # ---- round 6 (ten more, same request as round 5) ----
+    "C03_r6": ("print_nstring_to_buf: guard 'len >= left' rewritten as 'room = left - 1; len > room' (wraps when no byte is left)", "the separator comma filling the last byte of the buffer, or a separate event buffer of size 0"),
+    "C06_r6": ("parse_command_args: argument overflow answers with ack_error at once instead of CAT_STATE_ERROR (same idea as C01_r2)", "an over-long line whose tail spells a command: the tail is executed"),
+    "C07_r6": ("parse_buffer_hexadecimal: locals 'state' and 'size' narrowed to uint8_t", "a hex buffer variable of data_size >= 256: the byte counter wraps"),
+    "C08_r6": ("parse_command_args: the 'nothing writable' path refuses when cmd->write == NULL || cmd->var != NULL", "a command with only read-only variables AND its own write handler: refused instead of handed to the handler"),
+    "C10_r6": ("process_read_loop: NEXT re-formats only when the command has a readable variable", "a read command without variables whose handler appends to the buffer and returns NEXT: stale text in the next emission"),
+    "C13_r6": ("cat_is_unsolicited_event_buffered: early return when the queried command is the one in progress (kind not compared)", "READ and TEST events of the same command, one in progress, one queued, and a type-specific query"),
+    "C14_r6": ("start_processing_format_test_args: print_response_test failure answered with ack_error(self) for both machines", "a TEST event of a variable-less command whose description does not fit the event buffer, during a hold: ERROR for the held command"),
+    "C15_r6": ("read_cmd_char: a NUL byte is treated as 'nothing read' (returns 0)", "a 0x00 in the input followed by more bytes: cat_service returns OK with input pending"),
+    "C19_r6": ("print_cmd_list: '=?' listed when test != NULL || var != NULL (var_num no longer consulted)", "a command with a variable array attached but var_num == 0 and no test handler"),
+    "C20_r6": ("validate_int_range / validate_uint_range: the read-only short-cut no longer sets write_size = 0", "a read-only numeric variable with a write callback that looks at write_size: it sees the length left by the previous line"),
 }
 
 
